@@ -169,6 +169,13 @@ func (c06) Gen(r *world.Rng, tier string, n int) interface{} {
 	if single {
 		plen = r.Range(2, 8)
 	}
+	longSled := !single && n%24 == 2 // (decided from n so that it is known before the events are drawn)
+	if longSled {
+		prog = append(prog, miEI...)
+		for i := 0; i < 300; i++ {
+			prog = append(prog, miNOP...)
+		}
+	}
 	for i := 0; i < plen; i++ {
 		x := r.Intn(100)
 		switch {
@@ -219,10 +226,14 @@ func (c06) Gen(r *world.Rng, tier string, n int) interface{} {
 		case 2:
 			return hex.EncodeToString([]uint8{vec})
 		case 0:
-			if r.Chance(2, 3) {
+			switch x := r.Intn(12); {
+			case x < 7:
 				return hex.EncodeToString([]uint8{0xc7 | uint8(r.Intn(8))<<3})
+			case x < 10:
+				return hex.EncodeToString([]uint8{0xcd, uint8(tc), uint8(tc >> 8)})
+			default:
+				return hex.EncodeToString([]uint8{0xc3, uint8(tc), uint8(tc >> 8)}) // JP nn: the supplied instruction need not push
 			}
-			return hex.EncodeToString([]uint8{0xcd, uint8(tc), uint8(tc >> 8)})
 		default:
 			if r.Bool() {
 				return ""
@@ -259,12 +270,19 @@ func (c06) Gen(r *world.Rng, tier string, n int) interface{} {
 		sc.Steps = r.Range(40, 90)
 		ne = r.Range(3, 7)
 	}
+	long := n%24 == 2
+	if long {
+		// long quiet stretches: the refresh counter wraps (128 fetches) between the enabling EI and the request
+		sc.Steps = r.Range(130, 300)
+	}
 	for i := 0; i < ne; i++ {
 		ev := world.Event{Kind: world.EvINT, Data: mkData()}
 		if r.Chance(35, 100) {
 			ev = world.Event{Kind: world.EvNMI}
 		}
 		switch x := r.Intn(100); {
+		case long && x < 60:
+			ev.Boundary = []int{128, 129, 130, 256, 257, 127, r.Intn(sc.Steps)}[r.Intn(7)] + r.Intn(6)
 		case x < 60:
 			ev.Boundary = r.Intn(sc.Steps)
 		case x < 85:
@@ -434,6 +452,12 @@ func (c06) Exec(sci interface{}, env *Env) *Violation {
 
 		// memory: every byte written on the bus and the model's push cells
 		if c.PushFree {
+			// mode 0 RST/CALL: the stored word is C07's subject (known finding: PC+len instead of PC); here only
+			// "one of those two" is demanded, so that a third value - e.g. only at a PC wrap - is still seen
+			pushed := uint16(m.Bus.Mem[before.SP-1])<<8 | uint16(m.Bus.Mem[before.SP-2])
+			if off := pushed - before.PC; off != 0 && int(off) != len(reqCopy.Data) {
+				return viol("im0-pushed-word", "mode-0 acceptance at PC=%04x with data %x stored %04x: neither PC nor PC+len(data); %s", before.PC, reqCopy.Data, pushed, ctx())
+			}
 			c.Mem.Set(before.SP-1, m.Bus.Mem[before.SP-1])
 			c.Mem.Set(before.SP-2, m.Bus.Mem[before.SP-2])
 		}
@@ -463,6 +487,9 @@ func (c06) Exec(sci interface{}, env *Env) *Violation {
 				}
 			}
 			okW := len(wr) == 2 && ((wr[0].Addr == before.SP-1 && wr[1].Addr == before.SP-2) || (wr[0].Addr == before.SP-2 && wr[1].Addr == before.SP-1))
+			if c.Last == model.KAcceptIM0 && len(reqCopy.Data) == 3 && reqCopy.Data[0] == 0xc3 {
+				okW = len(wr) == 0 // a supplied JP nn stores nothing
+			}
 			if !okW {
 				return viol("acceptance-bus", "acceptance must write exactly SP-1 and SP-2; %s", ctx())
 			}
